@@ -22,6 +22,9 @@ func NativeRun(name, job string) {
 		os.Exit(2)
 	}
 	h.Run(job)
+	for _, n := range sym.Notes {
+		fmt.Println("NOTE " + n)
+	}
 	for _, r := range sym.Reached {
 		fmt.Println("REACHED " + r)
 	}
